@@ -386,6 +386,10 @@ def inline_pure_aliases(fn, keep=()):
                 mutated_paths.add(sp)
 
     def invalidated(e):
+        if isinstance(e, ast.Call) and isinstance(e.func, ast.Name) and e.func.id == "len" and len(e.args) == 1:
+            # len(X) goes stale when X is stored to, rebound or mutated in place
+            sp0 = shape(e.args[0])
+            return sp0 is None or any(sp0[:len(q)] == q or q[:len(sp0)] == sp0 for q in stored_paths | mutated_paths)
         sp = shape(e)
         if sp is None:
             return True
@@ -405,6 +409,8 @@ def inline_pure_aliases(fn, keep=()):
             return pure(e.value)
         if isinstance(e, ast.Subscript):
             return pure(e.value) and (isinstance(e.slice, ast.Constant) or isinstance(e.slice, ast.Name))
+        if isinstance(e, ast.Call) and isinstance(e.func, ast.Name) and e.func.id == "len" and len(e.args) == 1 and not e.keywords:
+            return pure(e.args[0])      # the length of something nobody stores into
         return False
     params = {a.arg for a in fn.args.posonlyargs + fn.args.args + fn.args.kwonlyargs}
     alias = {}
